@@ -22,15 +22,15 @@ ST = ['\\begin{e}', '\\end{e}', '\\begin{f}', '\\end{f}', '\\begin', '\\end', '\
 SUB = {
     'env': ['\\begin{e}', '\\end{e}', '\\begin{f}', '\\end{f}', '\\begin', '\\end', '{e}', ' ', 'x', '{', '}', '\\end {e}', '\\a', '[',
             '\\end{e }', '\\begin{ }', '\\end{ }', '\\begin{ e}', '%'],
-    'args': ['\\a', '{', '}', '[', ']', ' ', '\n', '\n\n', 'x', '%c\n', '\\b', ' {', ' [', '.'],
+    'args': ['\\a', '{', '}', '[', ']', ' ', '\n', '\n\n', 'x', '%c\n', '\\b', ' {', ' [', '.', '[a%c\n'],
     'math': ['$', '$$', '\\(', '\\)', '\\[', '\\]', 'x', '\\$', '{', '}', '\\cup', '[', '\\left(', '\\begin{equation}', '\\end{equation}', '\\a'],
     'verb': ['\\begin{verbatim}', '\\end{verbatim}', '\\begin{e}', '\\end{e}', '$', '{', '}', 'x', '%', '\n', '\\', '[', '\\end',
              '\\end{verbatim', ']', '\\begin {verbatim}', '{x} y', 'a%b'],
-    'item': ['\\begin{itemize}', '\\end{itemize}', '\\item', '\\item[', ']', 'x', 'é', ' ', '{', '}', '$', '\\a', '\\begin{e}', '\\end{e}'],
+    'item': ['\\begin{itemize}', '\\end{itemize}', '\\item', '\\item[', ']', 'x', 'é', '\\begin{item}', '\\end{item}', ' ', '{', '}', '$', '\\a', '\\begin{e}', '\\end{e}'],
     'esc': ['\\', '\\\\', '%', '\\%', 'c', '\n', '{', '}', '$', '\\$', ' ', 'a', '\\a', '*'],
     'sig': ['\\def', '\\textbf', '\\section', '\\label', '\\newcommand', '\\a', '{', '}', '[', ']', 'x', ' ', '\\cup', '\\left', '(', '\\begin{e}', '\\end{e}',
             '\\textbf{a}', '\\label{k}', '\\section[s]{t}', '\\def{a}{b}', '\\def\\foo{bar}', '\\section\\foo', '\\p{a}{b}{c}', '\\newcommand{\\p}[2]{x}', '\\renewcommand*', '%c\n', '\\newcommand{\\p}[]{x}', '\\newcommand{\\p}[#]'],
-    'names': ['\\emph', '\\textit', '\\ref', '\\cite', '\\frac', '\\text', '\\section*', '\\item', '%c\n', ' ', 'x', '{', '}', '[', ']', '\n'],
+    'names': ['\\emph', '\\textit', '\\ref', '\\cite', '\\frac', '\\text', '\\section*', '\\item', '%c\n', ' ', 'x', '{', '}', '[', ']', '\n', '\\noindent', '\n\n', '\\in'],
     'ign': ['\x00', '\x7f', '\\', '$', '%', '{', '}', 'a', ' ', '\n', '[', '(', '\\\\'],
 }
 
